@@ -1,0 +1,15 @@
+//go:build verif
+// +build verif
+
+package sarama
+
+// VerifHook is an observation/steering callback used by external verification
+// tooling. It is only compiled in with the "verif" build tag. It must be set
+// before any client, producer or consumer is created.
+var VerifHook func(point string, args ...interface{})
+
+func verifHook(point string, args ...interface{}) {
+	if h := VerifHook; h != nil {
+		h(point, args...)
+	}
+}
